@@ -10,6 +10,7 @@ package vh
 
 import (
 	"fmt"
+	"io"
 	"os"
 	"path/filepath"
 	"runtime"
@@ -27,6 +28,19 @@ type C02Call struct {
 	Name string `json:"name"`
 	Src  string `json:"src,omitempty"`
 	V    int    `json:"v"`
+	W    int    `json:"w,omitempty"` // renderTo: 0 bytes.Buffer, 1 a writer with Write only that yields while copying, 2 io.Pipe
+}
+
+// yieldWriter has no WriteString method and is slow to consume what it is handed: it copies
+// in two halves and yields in between, so bytes that the engine recycles early are seen
+type yieldWriter struct{ b []byte }
+
+func (w *yieldWriter) Write(p []byte) (int, error) {
+	h := len(p) / 2
+	w.b = append(w.b, p[:h]...)
+	runtime.Gosched()
+	w.b = append(w.b, p[h:]...)
+	return len(p), nil
 }
 
 type C02Case struct {
@@ -102,6 +116,23 @@ func c02Do(e *twig.Engine, call C02Call, nonce string) Res {
 	ctx := map[string]interface{}{"v": call.V, "s": fmt.Sprintf("<%d&\"'>%s", call.V, strings.Repeat("<&>", call.V))}
 	switch call.Op {
 	case "renderTo":
+		switch call.W {
+		case 1:
+			return guard(func() (string, error) {
+				w := &yieldWriter{}
+				err := e.RenderTo(w, call.Name, ctx)
+				return string(w.b), err
+			})
+		case 2:
+			return guard(func() (string, error) {
+				pr, pw := io.Pipe()
+				done := make(chan []byte, 1)
+				go func() { b, _ := io.ReadAll(pr); done <- b }()
+				err := e.RenderTo(pw, call.Name, ctx)
+				pw.Close()
+				return string(<-done), err
+			})
+		}
 		return renderTo(e, call.Name, ctx)
 	case "load":
 		return guard(func() (string, error) {
@@ -285,6 +316,7 @@ func genC02(t *rapid.T) C02Case {
 				call.Op, call.Name = "render", rapid.SampledFrom(names).Draw(t, "name")
 			case 4, 5:
 				call.Op, call.Name = "renderTo", rapid.SampledFrom(names).Draw(t, "name")
+				call.W = rapid.IntRange(0, 2).Draw(t, "writer")
 			case 6:
 				call.Op, call.Name = "load", rapid.SampledFrom(names).Draw(t, "name")
 				if c.Churn && rapid.Bool().Draw(t, "churnload") {
@@ -308,7 +340,7 @@ func genC02(t *rapid.T) C02Case {
 	return c
 }
 
-const c02Rule = "workloads on one shared engine with a temp-dir FileSystemLoader (2-3 directories whose templates extend ../shared/base and include/import ./part, ./macros, ./leaf — the same relative names resolving to different files per directory) and an ArrayLoader (inheritance with parent(), include-with, macros, a template above 4096 bytes, escaping of strings full of special characters); parsed and registered sources (below and above 4096 bytes) print identifiers the process has never seen; cache on / off / auto-reload; 2-16 goroutines with 3-12 (thorough 40) calls each out of Render, RenderTo, Load+Render, ParseTemplate+Render, RegisterString+Render of goroutine-private names; GOMAXPROCS 2/4/16/default and optional yields; each workload repeated 3 (thorough 10) times on fresh engines, so first loads are concurrent and uncached; built with -race. non-trivial = at least two calls overlapped in time on the shared engine (measured); distinct by workload"
+const c02Rule = "workloads on one shared engine with a temp-dir FileSystemLoader (2-3 directories whose templates extend ../shared/base and include/import ./part, ./macros, ./leaf — the same relative names resolving to different files per directory) and an ArrayLoader (inheritance with parent(), include-with, macros, a template above 4096 bytes, escaping of strings full of special characters); parsed and registered sources (below and above 4096 bytes) print identifiers the process has never seen; cache on / off / auto-reload; 2-16 goroutines with 3-12 (thorough 40) calls each out of Render, RenderTo (into a bytes.Buffer, a slow Write-only writer, an io.Pipe), Load+Render, ParseTemplate+Render, RegisterString+Render of goroutine-private names; GOMAXPROCS 2/4/16/default and optional yields; each workload repeated 3 (thorough 10) times on fresh engines, so first loads are concurrent and uncached; built with -race. non-trivial = at least two calls overlapped in time on the shared engine (measured); distinct by workload"
 
 func TestC02Concurrent(t *testing.T) {
 	r := NewRec(t, "C02", c02Rule)
